@@ -150,6 +150,8 @@ def charset(g: G, _st: Optional[Set[int]] = None) -> Optional[FrozenSet[str]]:
         return frozenset()
     if k == 'oneof':
         return frozenset(''.join(g.a['alts']))
+    if k == 'regex':
+        return regex_charset(g.a['pattern'], g.a.get('flags', 0))
     if k in ('and', 'first', 'or', 'repeat') or k in WRAPPERS:
         out: Set[str] = set()
         for x in g.kids:
@@ -159,6 +161,51 @@ def charset(g: G, _st: Optional[Set[int]] = None) -> Optional[FrozenSet[str]]:
             out |= c
         return frozenset(out)
     return None
+
+
+def regex_charset(pattern: str, flags: int = 0) -> Optional[FrozenSet[str]]:
+    """Characters a match of the pattern can contain (None when a class is negated / a wildcard or category is used)."""
+    sp, sc = _sre()
+    try:
+        tree = sp.parse(pattern, flags)
+    except Exception:
+        return None
+    out: Set[str] = set()
+
+    def walk_(seq) -> bool:
+        for op, av in seq:
+            if op is sc.LITERAL:
+                out.add(chr(av))
+            elif op is sc.IN:
+                for o2, v2 in av:
+                    if o2 is sc.LITERAL:
+                        out.add(chr(v2))
+                    elif o2 is sc.RANGE:
+                        if v2[1] - v2[0] > 512:
+                            return False
+                        out.update(chr(c) for c in range(v2[0], v2[1] + 1))
+                    else:
+                        return False          # negation, category
+            elif op is sc.SUBPATTERN:
+                if not walk_(av[-1]):
+                    return False
+            elif op is sc.BRANCH:
+                for br in av[1]:
+                    if not walk_(br):
+                        return False
+            elif op in (sc.MAX_REPEAT, sc.MIN_REPEAT):
+                if not walk_(av[2]):
+                    return False
+            elif op is sc.AT:
+                continue
+            else:
+                return False
+        return True
+    if not walk_(list(tree)):
+        return None
+    if flags & 2:        # re.IGNORECASE
+        out |= {c.lower() for c in out} | {c.upper() for c in out}
+    return frozenset(out)
 
 
 def inner_ws_allowed(g: G, _st: Optional[Set[int]] = None) -> bool:
@@ -255,12 +302,34 @@ def literal_texts(g: G, _st: Optional[Set[int]] = None) -> List[G]:
 
 def vocab_of(g: G) -> Optional[List[Tuple[str, bool, G]]]:
     """If g is (after unwrapping) a pure alternative of literals: [(text, caseless, node)], else None."""
-    while g.kind in WRAPPERS and g.kind != 'suppress' and g.kids:
+    while g.kind in WRAPPERS and g.kind != 'suppress' and g.kids and not (g.kind == 'combine' and g.kids[0].kind == 'and'):
         g = g.kids[0]
     if g.kind in ('lit', 'keyword'):
         return [(g.a['text'], bool(g.a.get('caseless')), g)]
     if g.kind == 'oneof':
         return [(t, bool(g.a.get('caseless')), g) for t in g.a['alts']]
+    if g.kind == 'combine' and g.kids and g.kids[0].kind == 'and':
+        # a keyword phrase assembled from words: Combine(And([word, word]), join_string=' ')
+        parts = []
+        for k in flatten_and(g.kids[0]):
+            v = vocab_of(k)
+            if v is None or len(v) != 1:
+                return None
+            parts.append(v[0])
+        if not parts:
+            return None
+        return [((g.a.get('join') or '').join(t for t, _, _ in parts), all(cl for _, cl, _ in parts), g)]
+    if g.kind == 'regex':
+        # a pattern that is a finite union of literal strings is a vocabulary too (its value is the text AS WRITTEN, see returns_canonical)
+        import re as _re
+        from .strctx import regex_literal_alternatives
+        try:
+            alts = regex_literal_alternatives(g.a['pattern'])
+        except Exception:
+            return None
+        if not alts or any(a is None for a in alts):
+            return None
+        return [(a, bool(g.a.get('flags', 0) & _re.IGNORECASE), g) for a in alts]
     if g.kind in ('first', 'or'):
         out: List[Tuple[str, bool, G]] = []
         for k in g.kids:
@@ -270,6 +339,12 @@ def vocab_of(g: G) -> Optional[List[Tuple[str, bool, G]]]:
             out.extend(v)
         return out
     return None
+
+
+def returns_canonical(node: G) -> bool:
+    """Does a caseless vocabulary token hand its action the spelling written in the grammar (CaselessLiteral, caseless one_of) rather than the
+    spelling found in the document (a case-insensitive Regex)?"""
+    return node.kind != 'regex'
 
 
 def is_comment_form(g: G) -> Optional[str]:
